@@ -291,7 +291,14 @@ func getThresholdMatching(typ core.DutyType, sigs []core.ParSignedData, threshol
 		return sigs, len(sigs) == threshold, nil
 	}
 
-	sigsByMsgRoot := make(map[[32]byte][]core.ParSignedData) // map[Root][]ParSignedData
+	// Only the message root of the newly added partial signature (the last one) can have newly
+	// reached the threshold; other roots were evaluated when their last member was added.
+	newRoot, err := sigs[len(sigs)-1].MessageRoot()
+	if err != nil {
+		return nil, false, err
+	}
+
+	var set []core.ParSignedData
 
 	for _, sig := range sigs {
 		root, err := sig.MessageRoot()
@@ -299,14 +306,14 @@ func getThresholdMatching(typ core.DutyType, sigs []core.ParSignedData, threshol
 			return nil, false, err
 		}
 
-		sigsByMsgRoot[root] = append(sigsByMsgRoot[root], sig)
+		if root == newRoot {
+			set = append(set, sig)
+		}
 	}
 
-	// Return true if we have "threshold" number of signatures.
-	for _, set := range sigsByMsgRoot {
-		if len(set) == threshold {
-			return set, true, nil
-		}
+	// Return true if we have exactly "threshold" number of matching signatures.
+	if len(set) == threshold {
+		return set, true, nil
 	}
 
 	return nil, false, nil
